@@ -43,8 +43,13 @@ def tree_of(spec):
     return {p: _content(k, s) for p, k, s in spec["tree"]}
 
 
+LINK_PAYLOAD = b"payload-that-lives-outside-the-dataset-folder"
+
+
 def expected_tree(spec):
     t = tree_of(spec)
+    if spec["fmt"] == "raw" and spec.get("link"):
+        t = dict(t, **{"linked.bin": LINK_PAYLOAD})  # a linked sample is part of the dataset: the copy holds its content
     if spec["fmt"] == "zips" and spec["fn"] == "imagefolder":
         # <class>.zip is extracted into dst/<class>/ ; top-level files end up in the zip 'misc'
         out = {}
@@ -78,6 +83,12 @@ def make_source(spec, gdir):
     if fmt == "raw":
         src.mkdir(parents=True, exist_ok=True)
         _write_tree(src, tree)
+        if spec.get("link"):
+            # one sample of the plain-folder source is a relative symlink to a file outside the copied subtree (shared storage)
+            outside = Path(gdir) / "outside"
+            outside.mkdir(exist_ok=True)
+            (outside / "payload.bin").write_bytes(LINK_PAYLOAD)
+            os.symlink(os.path.relpath(outside / "payload.bin", start=src), src / "linked.bin")
     elif fmt == "zip":
         src.parent.mkdir(parents=True, exist_ok=True)
         _zip_tree(src.with_suffix(".zip"), tree)
@@ -108,7 +119,10 @@ def read_tree(root):
     for dp, dn, fn in os.walk(root):
         for f in fn:
             full = Path(dp) / f
-            out[str(full.relative_to(root))] = full.read_bytes()
+            try:
+                out[str(full.relative_to(root))] = full.read_bytes()
+            except FileNotFoundError:
+                out[str(full.relative_to(root))] = b"<dangling symlink>"
     return out
 
 
@@ -125,6 +139,17 @@ def _call(spec, gpath, lpath):
         from kappadata.copying.image_folder import copy_imagefolder_from_global_to_local as fn
     rel = spec["relative"]
     form = spec.get("path_form") or "path"
+    if form == "symlink":
+        # the local disk is reached through a symlinked parent (/local -> /scratch/user): the path given differs from its resolved form
+        real_parent = Path(lpath).parent
+        link = real_parent.parent / "lnk"
+        if not link.is_symlink():
+            os.symlink(real_parent, link)
+        lpath = link / Path(lpath).name
+    elif form == "relcwd":
+        # a local path relative to the working directory (this runs in the forked child only)
+        os.chdir(Path(lpath).parent)
+        lpath = Path(Path(lpath).name)
     if form == "str":
         gpath, lpath = str(gpath), str(lpath)  # both path arguments are documented as str or Path
     elif form == "rel_path" and rel is not None:
@@ -419,9 +444,16 @@ def scenario_s(draw, max_crashes=3):
     return {"fmt": fmt, "tree": draw(tree_s()), "relative": draw(st.sampled_from([None, "sub", "sub/deep"])),
             "pre": draw(st.sampled_from(["absent", "absent", "parent", "user", "user_empty"])), "fn": draw(st.sampled_from(["folder", "imagefolder"])),
             "readme": draw(st.sampled_from([0, 1, 2, 2])), "workers": draw(st.sampled_from([0, 1])),
-            "path_form": draw(st.sampled_from(["path", "str", "rel_path"])), "call": draw(st.sampled_from(["keyword", "keyword", "positional"])),
+            "path_form": draw(st.sampled_from(["path", "str", "rel_path", "symlink", "relcwd"])), "link": draw(st.integers(0, 3)) == 0, "call": draw(st.sampled_from(["keyword", "keyword", "positional"])),
             "crashes": draw(st.lists(st.floats(0, 0.999).map(lambda f: round(f, 3)), min_size=min(max_crashes, draw(st.sampled_from([0, 1, 1, 1]))),
                                     max_size=max_crashes))}
+
+
+def _many_zips(t):
+    """multi-worker extraction, sometimes over datasets with more top-level folders (= zips) than any task-grouping constant"""
+    s, many, workers = t
+    tree = list(s["tree"]) + [[f"m{k:02d}/f.bin", k, 1] for k in range(many)]
+    return dict(s, workers=workers, tree=tree)
 
 
 FIXED_TREE = [["cls0/f.bin", 1, 7], ["cls0/a/g.dat", 2, 0], ["cls1/img_0", 3, 300], ["notes", 4, 1]]
@@ -468,7 +500,8 @@ def enumerate_pairs(tier):
 FACETS = [
     Facet("random-crash-sequences", check, strategy=lambda tier: scenario_s(), budget={"quick": 400, "thorough": 5000},
           shards={"quick": 10, "thorough": 16}, min_nontrivial={"quick": 80, "thorough": 1000}, case_timeout=300),
-    Facet("no-crash-multi-worker", check, strategy=lambda tier: scenario_s(max_crashes=0).map(lambda s: dict(s, workers=2)),
+    Facet("no-crash-multi-worker", check, strategy=lambda tier: st.tuples(scenario_s(max_crashes=0), st.sampled_from([0, 0, 33, 45, 50, 65]),
+                                                                          st.sampled_from([2, 2, 3])).map(_many_zips),
           budget={"quick": 24, "thorough": 200}, shards={"quick": 4, "thorough": 8}, min_nontrivial={"quick": 0, "thorough": 0},
           case_timeout=300),
     Facet("all-single-crash-points", check, enumerate=enumerate_singles, exhaustive=True, shards={"quick": 12, "thorough": 16},
